@@ -29,6 +29,7 @@ import (
 	"net"
 	"net/http"
 	"net/http/httptest"
+	"runtime"
 	"strconv"
 	"strings"
 	"sync"
@@ -101,15 +102,23 @@ func tlsDial(l *memListener, id int, timeout time.Duration) (*tls.Conn, *memConn
 	return tc, raw, nil
 }
 
+var errNotTheAnswer = errors.New("wrong response")
+
 // exchange: one request, one response, bounded.
 func exchange(c net.Conn, idx int, beh string, timeout time.Duration) (respObs, error) {
+	return exchangeAs(c, 0, idx, beh, timeout)
+}
+
+// exchangeAs: … as the idx-th request of connection `conn`; a response that is not the answer to exactly
+// this request (another connection's, another request's, another payload) is an error.
+func exchangeAs(c net.Conn, conn, idx int, beh string, timeout time.Duration) (respObs, error) {
 	type out struct {
 		o   respObs
 		err error
 	}
 	ch := make(chan out, 1)
 	go func() {
-		if _, err := c.Write(goodRequest(idx, beh)); err != nil {
+		if _, err := c.Write(connRequest(conn, idx, beh, 0)); err != nil {
 			ch <- out{err: fmt.Errorf("write: %w", err)}
 			return
 		}
@@ -119,7 +128,12 @@ func exchange(c net.Conn, idx int, beh string, timeout time.Duration) (respObs, 
 			ch <- out{err: fmt.Errorf("read: %w", err)}
 			return
 		}
-		ch <- out{o: observeResponse(&resp)}
+		o := observeResponse(&resp)
+		if o.ID != idx || o.Conn != conn || (o.Status == uint32(kmip.ResultStatusSuccess) && o.Echo != requestUID(conn, idx, beh, 0)) {
+			ch <- out{o: o, err: fmt.Errorf("%w: the response received is not the answer to the request sent: it answers request %d of connection %d (payload %.40q), sent request %d of connection %d (%.40q)", errNotTheAnswer, o.ID, o.Conn, o.Echo, idx, conn, requestUID(conn, idx, beh, 0))}
+			return
+		}
+		ch <- out{o: o}
 	}()
 	select {
 	case r := <-ch:
@@ -187,6 +201,11 @@ func runIsoJob(job *ltsJob) *ltsRes {
 	sc := job.Iso
 	res := &ltsRes{Idx: job.Idx}
 	add := func(oracle, key, detail string) { res.Viol = append(res.Viol, violOut{oracle, "srv:" + key, detail}) }
+	if sc.Block == "noread" {
+		// few processors: whatever the goroutines of different connections share per processor (sync.Pool
+		// caches, …) is then really shared between the blocked connection and its neighbours
+		defer runtime.GOMAXPROCS(runtime.GOMAXPROCS(2))
+	}
 	ts := newTestServerOn(sc.TLS, nil)
 	w := ts.w
 	w.blockCh = make(chan struct{})
@@ -225,10 +244,10 @@ func runIsoJob(job *ltsJob) *ltsRes {
 	reached := false
 	switch sc.Block {
 	case "handler":
-		go func() { _, _ = ca.Write(goodRequest(0, "block")) }()
+		go func() { _, _ = ca.Write(connRequest(1, 0, "block", 0)) }()
 		reached = waitFor(func() bool { return a.starts.Load() >= 1 }, 2*time.Second)
 	case "noread":
-		go func() { _, _ = ca.Write(goodRequest(0, "ok")) }()
+		go func() { _, _ = ca.Write(connRequest(1, 0, "ok", 0)) }()
 		reached = waitFor(func() bool { return a.handlerEnds.Load() > 0 }, 2*time.Second)
 		time.Sleep(10 * time.Millisecond) // the writer is now in Write, the owner waits for it
 	case "hook":
@@ -238,7 +257,7 @@ func runIsoJob(job *ltsJob) *ltsRes {
 		case <-time.After(2 * time.Second):
 		}
 	default:
-		go func() { _, _ = ca.Write(goodRequest(0, "ok")) }()
+		go func() { _, _ = ca.Write(connRequest(1, 0, "ok", 0)) }()
 		select {
 		case <-a.reached:
 			reached = true
@@ -269,6 +288,11 @@ func runIsoJob(job *ltsJob) *ltsRes {
 			id := 2 + i
 			fail := func(step string, err error) {
 				mu.Lock()
+				if errors.Is(err, errNotTheAnswer) {
+					add("answers", "response-of-another-request", fmt.Sprintf("while connection 1 is blocked (%s), connection %d, %s: %v", sc.Block, id, step, err))
+					mu.Unlock()
+					return
+				}
 				add("isolation", "other-connection-blocked", fmt.Sprintf("while connection 1 is blocked (%s), connection %d is not served: %s: %v", sc.Block, id, step, err))
 				mu.Unlock()
 			}
@@ -278,13 +302,21 @@ func runIsoJob(job *ltsJob) *ltsRes {
 				return
 			}
 			defer c.Close()
-			for k, beh := range []string{"ok", "kerr:1", "pstr"} {
-				o, err := exchange(c, k, beh, 2*time.Second)
+			behs := []string{"ok", "kerr:1", "pstr"}
+			if sc.Block == "noread" {
+				// the blocked connection's response is being written (its writer is inside Write, holding
+				// whatever Send holds): many more responses are produced and written meanwhile
+				for q := 0; q < 24; q++ {
+					behs = append(behs, "ok")
+				}
+			}
+			for k, beh := range behs {
+				o, err := exchangeAs(c, id, k, beh, 2*time.Second)
 				if err != nil {
 					fail(fmt.Sprintf("request %d (%s)", k, beh), err)
 					return
 				}
-				if o.ID != k || (o.Status != uint32(kmip.ResultStatusSuccess)) != expectedFailed(beh) {
+				if (o.Status != uint32(kmip.ResultStatusSuccess)) != expectedFailed(beh) {
 					fail(fmt.Sprintf("request %d (%s)", k, beh), fmt.Errorf("answered with id %d status %d", o.ID, o.Status))
 					return
 				}
@@ -301,8 +333,33 @@ func runIsoJob(job *ltsJob) *ltsRes {
 		close(a.hookGate)
 	}
 	close(a.release)
-	if sc.Block != "noread" {
-		time.Sleep(2 * time.Millisecond)
+	if sc.Block != "hook" {
+		// the blocked connection's own request is still to be answered — with ITS response, whatever the
+		// neighbours have been sent meanwhile
+		got := make(chan error, 1)
+		go func() {
+			var resp kmip.ResponseMessage
+			st := ttlv.NewStream(ca, 1<<20)
+			if err := st.Recv(&resp); err != nil {
+				got <- fmt.Errorf("no response: %v", err)
+				return
+			}
+			if o := observeResponse(&resp); o.ID != 0 || o.Conn != 1 || o.Status != uint32(kmip.ResultStatusSuccess) || !strings.HasSuffix(o.Echo, "c1.0.") {
+				got <- fmt.Errorf("it received the response to request %d of connection %d (status %d, payload %.40q)", o.ID, o.Conn, o.Status, o.Echo)
+				return
+			}
+			got <- nil
+		}()
+		select {
+		case err := <-got:
+			if err != nil {
+				add("answers", "blocked-connection-response", fmt.Sprintf("once released, the connection that was blocked (%s) while its neighbours were served did not get the response to its own request: %v", sc.Block, err))
+			} else {
+				res.count("iso.blocked-answered")
+			}
+		case <-time.After(2 * time.Second):
+			add("answers", "blocked-connection-response", fmt.Sprintf("once released, the connection that was blocked (%s) got no response within 2s", sc.Block))
+		}
 	}
 	_ = ca.Close()
 	if m, r, wr := settle(2 * time.Second); m+r+wr != 0 {
